@@ -1375,6 +1375,11 @@ class XMLSchemaBase(XsdValidator, ElementPathMixin[Union[SchemaType, XsdElement]
                     yield context.missing_element_error(validation, self, elem, path, schema_path)
                     return
 
+            if context.level:
+                # Not the root of the validation (lazy chunk): apply the namespace
+                # declarations of the element, like a parent group does for its children.
+                context.converter.set_xmlns_context(elem, context.level)
+
             try:
                 xsd_element.raw_decode(elem, validation, context)
             except XMLSchemaStopValidation:
